@@ -180,3 +180,6 @@ pub(crate) fn line_parent(l: &SpanLine) -> Option<SpanId> {
         None => l.collect_token.as_ref().and_then(|t| t.first()).map(|i| i.parent_id),
     }
 }
+pub(crate) fn line_records(l: &SpanLine) -> &crate::util::RawSpans {
+    crate::local::span_queue::verif_harness::records(&l.span_queue)
+}
